@@ -848,7 +848,12 @@ impl Rasn {
             }),
             ASN1Value::BitString(b) => {
                 let bits = b.iter().map(|bit| bit.to_token_stream());
-                Ok(quote!([#(#bits),*].into_iter().collect()))
+                if b.is_empty() {
+                    // an empty array literal has no element type to infer
+                    Ok(quote!(BitString::new()))
+                } else {
+                    Ok(quote!([#(#bits),*].into_iter().collect()))
+                }
             }
             ASN1Value::EnumeratedValue {
                 enumerated,
